@@ -34,6 +34,8 @@ type Rec struct {
 	CVal constant.Value
 	Ref  bool // recorded on the assignment-target side
 	CommaOk bool // compiled in two-value (comma-ok) mode: Type is the tuple (T, bool)
+	Val  ast.Node // the syntax the builder holds for the operand (what it will emit)
+	Fn   string   // key of the function being compiled ("" at package level)
 }
 
 // OpEvent is one builder operation as seen by the monitor (internal/mon semantics of DESIGN.md E1).
@@ -1332,7 +1334,7 @@ func (c *Compiler) exprTop(e ast.Expr, lhs int) {
 	c.checkRestored(s0, fmt.Sprintf("expression %T", e))
 	if c.Recs != nil {
 		el := c.cb.Get(-1)
-		c.Recs[unparen(e)] = Rec{Type: el.Type, CVal: el.CVal, CommaOk: lhs == 2 && isCommaOkForm(e)}
+		c.Recs[unparen(e)] = Rec{Type: el.Type, CVal: el.CVal, CommaOk: lhs == 2 && isCommaOkForm(e), Val: el.Val, Fn: c.funcKey}
 	}
 }
 
